@@ -184,6 +184,22 @@ func (s *Solver) Check(pc []*sym.Term, extra *sym.Term) Result {
 	return r
 }
 
+// CheckIsolated decides the conjunction of cs on an empty base (the synced
+// stack, if any, is popped first).
+func (s *Solver) CheckIsolated(cs []*sym.Term) Result {
+	if len(s.stack) > 0 {
+		s.send(fmt.Sprintf("(pop %d)", len(s.stack)))
+		s.stack = s.stack[:0]
+	}
+	s.send("(push 1)")
+	for _, c := range cs {
+		s.assert(c)
+	}
+	r := s.checkSat()
+	s.send("(pop 1)")
+	return r
+}
+
 // CheckModel is Check followed, when sat, by reading the values of vars.
 func (s *Solver) CheckModel(pc []*sym.Term, extra *sym.Term, vars []*sym.Term) (Result, map[string]uint64) {
 	s.Sync(pc)
